@@ -206,9 +206,14 @@ def _run_sum(case, ctx):
         out.append(Violation({"sub": "shape", "sumup": case["sumup"]}, f"result shape {full.shape}, sum of singles {ref.shape}"))
     else:
         floor = float(np.max(scl)) * 1e-6 if np.all(np.isfinite(scl)) else 1.0
+        # a field vector that is non-finite on both sides (observer on a Dipole's own position: +-inf, and nan once
+        # rotated or summed) is equal for this property; finiteness is C15's subject
+        both_nonfinite = (np.any(~np.isfinite(full), axis=-1, keepdims=True) & np.any(~np.isfinite(ref), axis=-1, keepdims=True)) * np.ones(3, dtype=bool)
+        if np.any(both_nonfinite):
+            ctx.label("nonfinite_on_both_sides_skipped")
         with np.errstate(invalid="ignore"):
             bad = ~(np.abs(full - ref) <= 1e-9 * np.maximum(scl, floor))
-            bad &= ~(np.isnan(full) & np.isnan(ref))
+            bad &= ~both_nonfinite
         if np.any(bad):
             # condition-aware allowance (see C06): displace every observer by 8 ulp and see how much
             # the explicit sum itself moves
@@ -234,7 +239,7 @@ def _run_sum(case, ctx):
                         pass
             with np.errstate(invalid="ignore"):
                 bad = ~(np.abs(full - ref) <= 1e-9 * np.maximum(scl, floor) + 20.0 * noise)
-                bad &= ~(np.isnan(full) & np.isnan(ref))
+                bad &= ~both_nonfinite
             if not np.any(bad):
                 ctx.label("illconditioned_tolerated")
         if np.any(bad):
